@@ -153,7 +153,7 @@ func (b DBody) jsonMembers(legacyRefs map[string]bool, nlsep, ind string) []stri
 }
 
 func (b DBody) json(pretty bool) string {
-	legacy := map[string]bool{"ref": true, "dep": true}
+	legacy := map[string]bool{"ref": true, "dep": true, "decl": true}
 	if pretty {
 		return "{\n" + strings.Join(b.jsonMembers(legacy, "\n", "  "), ",\n") + "\n}\n"
 	}
@@ -304,6 +304,10 @@ func genDual(r *rand.Rand) DBody {
 		if r.Intn(3) == 0 {
 			ob.Attrs = append(ob.Attrs, DAttr{Name: "dep", Val: g.ref()})
 		}
+		// declarations written as references ("${mark.m0}" / legacy "mark.m0" in JSON), and strings that are no
+		// traversal (a plain string in both syntaxes); no random draw
+		ob.Attrs = append(ob.Attrs, DAttr{Name: "decl", Val: DExpr{Kind: []string{"ref", "str"}[i%2], Str: []string{fmt.Sprintf("mark.m%d", i), "eu west"}[i%2]}})
+		ob.Attrs = append(ob.Attrs, DAttr{Name: "decls", Val: DExpr{Kind: "list", Items: []DExpr{{Kind: "ref", Str: fmt.Sprintf("mark.l%d", i)}, {Kind: "str", Str: "ap south-1"}, {Kind: "ref", Str: fmt.Sprintf("mark.k%d.x", i)}}}})
 		b.Blocks = append(b.Blocks, DBlock{Type: "output", Labels: []string{fmt.Sprintf("o%d", i)}, Body: ob})
 	}
 	for i, n := 0, r.Intn(2); i < n; i++ {
